@@ -626,14 +626,16 @@ static int re_recmatch(struct regex *re, struct rstate *rs, int nsub, regmatch_t
 	return 1;
 }
 
-int regexec(regex_t *preg, char *s, int nsub, regmatch_t psub[], int flg)
+/* search beg from offset off; anchors and word boundaries see all of beg */
+int regexec_at(regex_t *preg, char *beg, int off, int nsub, regmatch_t psub[], int flg)
 {
 	struct regex *re = *preg;
 	struct rstate rs;
+	char *s = beg + off;
 	char *o = s;
 	memset(&rs, 0, sizeof(rs));
 	rs.flg = re->flg | flg;
-	rs.o = s;
+	rs.o = beg;
 	while (*o) {
 		rs.s = o = s;
 		s += uc_len(s);
@@ -641,6 +643,11 @@ int regexec(regex_t *preg, char *s, int nsub, regmatch_t psub[], int flg)
 			return 0;
 	}
 	return 1;
+}
+
+int regexec(regex_t *preg, char *s, int nsub, regmatch_t psub[], int flg)
+{
+	return regexec_at(preg, s, 0, nsub, psub, flg);
 }
 
 int regerror(int errcode, regex_t *preg, char *errbuf, int errbuf_size)
